@@ -421,7 +421,13 @@ impl Sys for ChainSt {
                 Ok(())
             }
             Followed::NotFollowed => {
-                // whether a redirect is followed at all is the method table's business (C15)
+                // whether a redirect is followed at all is the method table's business (C15) - but a Location
+                // that cannot be resolved is "reported as an error" whatever the table says
+                if self.cfg.check_target {
+                    if let Err(why) = &target {
+                        return Err((self.k("bad-location-not-reported"), format!("hop {}: {} Location {:?} ({}): as_new_flow returned None (not followed) instead of an error", self.hop + 1, a.status, loc.last_str(), why)));
+                    }
+                }
                 let _ = &want_method;
                 self.ended = Some("not-followed".into());
                 self.hop += 1;
